@@ -19,6 +19,7 @@ import Proofs.Base64
 import Proofs.TimeShape
 import Proofs.LineLevel
 import Proofs.RoundTrip
+import Proofs.ValueTie
 
 namespace Jl.C04
 open Jl Jl.Value Cast CastTyped
@@ -166,5 +167,27 @@ theorem emitted_bytes_in_class (ext : Ext) (ti to : Tmpl) (line b : Bytes) (fuel
   have hrs := RoundTrip.reader_strings (line := line) (t := (Json.unmarshal line).1)
     (b := (Json.unmarshal line).2) rfl
   exact keys_fixed_of_reader _ hrs k hk
+
+/-! ### The model of `value.go` is REGENERATED (`extract/value.go` → `Gen.ValueTable`, `Proofs/ValueTie`)
+
+  `value.Import`, `value.Export`, `NewValue`, `CloneValue` and the fourteen functions of `conversions_import.go` /
+  `conversions_export.go` are read from the source on every run (symbolic execution format by format, classified into
+  the small syntax of `Model.ValueSyntax`) and interpreted by `Model.ValueGen`.  The theorems of this file are about
+  the hand-written `Model.Value`; this one says that `Model.Value` IS that interpretation of today's source, so a
+  change of the source (another caster for a format, a layout instead of `cast.ToString`, a dropped nil check, a Row
+  accepted by another format, another sentinel, renumbered formats …) stops it from compiling. -/
+theorem value_model_is_the_source :
+    (Gen.valueTable.known = true ∧ Gen.valueTable.importPreamble = .asModelled ∧
+      Gen.valueTable.exportPreamble = .asModelled ∧ Gen.valueTable.newValue = .asModelled ∧
+      Gen.valueTable.cloneValue = .asModelled) ∧
+    (∀ (env : Value.Env) (f : Format) (typ : Ty) (val : Dyn),
+      ValueGen.importByFormatG Gen.valueTable env f typ val = Value.importByFormat env f typ val) ∧
+    (∀ (env : Value.Env) (old : Dyn) (f : Format) (typ : Ty) (val : Dyn), f ≠ .bad →
+      ValueGen.importCellG Gen.valueTable env old f typ val = Value.importCell env f typ val) ∧
+    (∀ (env : Value.Env) (raw : Dyn) (f : Format) (typ : Ty),
+      ValueGen.exportCellG Gen.valueTable env raw f = Value.exportVal env (.cell raw f typ)) ∧
+    Gen.valueTable.formats = Format.declared.map (fun f => (f.goName, (f.ctorIdx : Int))) :=
+  ⟨ValueTie.table_known, ValueTie.import_as_modelled, ValueTie.importCell_as_modelled,
+   ValueTie.export_as_modelled, ValueTie.formats_as_modelled⟩
 
 end Jl.C04
